@@ -223,6 +223,12 @@ func (r *Run) callSSA(caller *frame, fn *ssa.Function, args []Value, env []Value
 		r.fnCount[info.name]++
 		return info.intrinsic(fr, fn, args)
 	}
+	if r.stubs != nil {
+		if v, ok := r.stubs[info.name]; ok {
+			r.fnCount["stub:"+info.name]++
+			return v
+		}
+	}
 	if info.isInit && info.skipInit {
 		return nil
 	}
